@@ -118,6 +118,30 @@ cell(const struct lyd_node *orig, LYD_FORMAT fmt, uint32_t wd, int shrink)
     ly_in_free(in, 0);
     lyd_free_all(back);
     free(mem);
+    if ((res == '=') && exact) {
+        /* single-tree law: every top-level tree printed on its own (no LYD_PRINT_WITHSIBLINGS: lyd_print_tree) and parsed back holds the
+         * explicit content of that tree alone - nested documents (anydata content) must not inherit the outer "first tree only" */
+        const struct lyd_node *n;
+        int k = 0;
+
+        for (n = orig; n && (k < 6) && (res == '='); n = n->next, ++k) {
+            struct lyd_node *one = NULL, *b1 = NULL;
+            char *m1 = NULL, *x = NULL, *y = NULL;
+            uint32_t o = LYD_PRINT_SHRINK | LYD_PRINT_WD_EXPLICIT;
+
+            if (!n->schema || (n->flags & LYD_DEFAULT)) continue;
+            if (lyd_dup_single(n, NULL, LYD_DUP_RECURSIVE | LYD_DUP_WITH_FLAGS, &one)) { res = 'S'; break; }
+            if (lyd_print_mem(&m1, n, fmt, popts)) {
+                res = 'S';
+            } else if (lyd_parse_data_mem(ctx, m1 ? m1 : "", fmt, LYD_PARSE_STRICT | LYD_PARSE_ONLY, 0, &b1)) {
+                res = 'S';
+            } else if (lyd_print_mem(&x, one, LYD_XML, o) || lyd_print_mem(&y, b1, LYD_XML, o | LYD_PRINT_WITHSIBLINGS) || strcmp(x ? x : "", y ? y : "")) {
+                res = 'S';
+            }
+            free(m1); free(x); free(y);
+            lyd_free_all(one); lyd_free_all(b1);
+        }
+    }
     return res;
 }
 
